@@ -58,6 +58,30 @@ pub fn set_hook(hook: Option<Hook>) {
     HOOK.store(value, Ordering::SeqCst);
 }
 
+/// Signature of the function that decides whether a condition-variable wait returns at once (a spurious wake-up)
+pub type SpuriousWaitHook = fn(&'static Location<'static>) -> bool;
+
+static SPURIOUS_WAIT_HOOK: AtomicPtr<()> = AtomicPtr::new(std::ptr::null_mut());
+
+///
+/// Installs (or with `None`, removes) the function that is asked before every `Condvar::wait` whether that wait should return
+/// at once without having been notified. `std::sync::Condvar::wait` is allowed to do that ("spurious wake-ups"), so every caller
+/// has to re-check its predicate; on Linux it practically never happens by itself.
+///
+pub fn set_spurious_wait_hook(hook: Option<SpuriousWaitHook>) {
+    let value = match hook { Some(hook) => hook as *mut (), None => std::ptr::null_mut() };
+    SPURIOUS_WAIT_HOOK.store(value, Ordering::SeqCst);
+}
+
+#[inline]
+fn spurious_wait(location: &'static Location<'static>) -> bool {
+    let hook = SPURIOUS_WAIT_HOOK.load(Ordering::Relaxed);
+    if hook.is_null() { return false; }
+    // Safe: the only values ever stored are null and valid `SpuriousWaitHook` function pointers
+    let hook: SpuriousWaitHook = unsafe { std::mem::transmute::<*mut (), SpuriousWaitHook>(hook) };
+    hook(location)
+}
+
 ///
 /// Reports a point to the hook, if one is installed
 ///
@@ -261,9 +285,14 @@ pub mod sync {
             let std_guard   = guard.guard.take().expect("guard is present until dropped");
 
             point(PointKind::BeforeWait, location);
-            let result = match self.0.wait(std_guard) {
-                Ok(std_guard)   => Ok(MutexGuard { guard: Some(std_guard), location: lock_site }),
-                Err(_)          => Err(Poisoned)
+            let result = if super::spurious_wait(location) {
+                // A spurious wake-up: the wait returns with the lock held, nobody having notified
+                Ok(MutexGuard { guard: Some(std_guard), location: lock_site })
+            } else {
+                match self.0.wait(std_guard) {
+                    Ok(std_guard)   => Ok(MutexGuard { guard: Some(std_guard), location: lock_site }),
+                    Err(_)          => Err(Poisoned)
+                }
             };
             point(PointKind::AfterWait, location);
 
